@@ -277,6 +277,7 @@ def _e2e(ctx, rng, tmp):
             f.write(data)
         jobs.append((["t", path], work))
         jobs.append((["x", path, os.path.join(work, "out_cli_%d" % i)], work))
+        jobs.append((["x", "--verbose", path, os.path.join(work, "out_cliv_%d" % i)], work))
     cli_res = sandbox.pmap(_cli_job, jobs, timeout=150, mem=None)
     # ground truth: sequential in-memory extraction (stream mode) compared with the pristine members
     truth_res = sandbox.pmap(_truth, truthjobs, timeout=60)
@@ -291,7 +292,7 @@ def _e2e(ctx, rng, tmp):
                 ctx.count("status", "truth-timeout-skipped")
                 continue
             truth = "ok" if (st == "ok" and val == "same") else "fail"
-        for which, cres in (("t", cli_res[2 * i]), ("x", cli_res[2 * i + 1])):
+        for which, cres in (("t", cli_res[3 * i]), ("x", cli_res[3 * i + 1]), ("x --verbose", cli_res[3 * i + 2])):
             rc = cres[1][0] if cres[0] == "ok" else cres[0]
             ctx.case(key=(which, label), nontrivial=truth == "fail", sample={"argv": [which, label], "rc": rc, "truth": truth})
             ctx.count("status-" + which, "%s/%s" % (truth, rc))
